@@ -67,10 +67,14 @@ def check(ctx, world, rounds=16):
     st, gsym, syms = gm.symbolic_int_group(world, ev)
     from ..terms import mk_app
     want = mk_app("Eq", (mk_app("pow", (syms["g"], syms["q"], syms["p"])), Const(1)))
-    ok = any(t == want and pol is True for (t, pol, _) in getattr(st, "ctor_pc", []))
+    pcs = getattr(st, "all_ctor_pcs", None) or [getattr(st, "ctor_pc", [])]
+    okp = [any(t == want and pol is True for (t, pol, _) in pc) for pc in pcs]
+    ok = all(okp)
     ctx.ob("N-ctor-assert", gsym.cls.name + ".__init__", ok,
-           "constructor refuses generators with g^q != 1 (only generators whose order divides q are accepted)" if ok else
-           "constructor no longer asserts pow(g, q, p) == 1", (gsym.cls.mod.relpath, gsym.cls.node.lineno, gsym.cls.name))
+           "every path through the constructor requires g^q = 1 (only generators whose order divides q are accepted)" if ok else
+           "%d of %d paths through the constructor accept the generator without establishing pow(g, q, p) == 1%s"
+           % (okp.count(False), len(okp), " (a path depends on shared state left by earlier calls)" if len(okp) > 1 else ""),
+           (gsym.cls.mod.relpath, gsym.cls.node.lineno, gsym.cls.name))
     # ---------------- Ed25519
     params, G = sp["Ed25519"]
     m, consts = gm.ed_consts(world, ev)
